@@ -243,6 +243,29 @@ pub fn generate(tier: &str, seed: u64, shard: u64, nshards: u64, path: &str) -> 
             }
             cases += 20;
         }
+        // a refused message (a value the format cannot express AFTER values it can) must leave nothing behind: the messages
+        // converted next on the same thread carry exactly their own bodies
+        for round in 0..3 {
+            let long = "k".repeat(70000);
+            let refused = match round {
+                0 => RtmpMessage::Amf0Command { command_name: "publish".into(), transaction_id: 4.0, command_object: Amf0Value::Null,
+                                                additional_arguments: vec![Amf0Value::Utf8String(long.clone()), Amf0Value::Utf8String("live".into())] },
+                1 => RtmpMessage::Amf0Data { values: vec![Amf0Value::Utf8String("@setDataFrame".into()), Amf0Value::Number(1.0), Amf0Value::Utf8String(long.clone())] },
+                _ => { let mut p = std::collections::HashMap::new(); p.insert(long.clone(), Amf0Value::Null);
+                       RtmpMessage::Amf0Command { command_name: "x".into(), transaction_id: 0.0, command_object: Amf0Value::Object(p), additional_arguments: vec![] } }
+            };
+            t.emit(&to_payload_event(refused, &mut rng));
+            t.emit(&to_payload_event(RtmpMessage::Amf0Data { values: vec![Amf0Value::Utf8String("onMetaData".into()), Amf0Value::Number(2.0)] }, &mut rng));
+            t.emit(&to_payload_event(RtmpMessage::Amf0Command { command_name: "createStream".into(), transaction_id: 2.0, command_object: Amf0Value::Null, additional_arguments: vec![] }, &mut rng));
+            cases += 3;
+        }
+        // arrays around 1024 elements inside data and command bodies
+        for n in [1023usize, 1024, 1025].iter() {
+            let arr = Amf0Value::StrictArray((0..*n).map(|i| Amf0Value::Boolean(i % 3 == 0)).collect());
+            t.emit(&to_payload_event(RtmpMessage::Amf0Data { values: vec![Amf0Value::Utf8String("d".into()), arr.clone(), Amf0Value::Null] }, &mut rng));
+            t.emit(&to_payload_event(RtmpMessage::Amf0Command { command_name: "c".into(), transaction_id: 1.0, command_object: Amf0Value::Null, additional_arguments: vec![arr, Amf0Value::Number(7.0)] }, &mut rng));
+            cases += 2;
+        }
         // all 256 type ids with bodies: unknown ids must pass through untouched
         for ty in 0..=255u8 {
             if [1u8, 2, 3, 4, 5, 6, 8, 9, 15, 17, 18, 20].contains(&ty) {
